@@ -115,6 +115,8 @@ impl<const BITS: usize, const LIMBS: usize> Uint<BITS, LIMBS> {
             *limb = limb.reverse_bits();
         }
         if BITS % 64 != 0 {
+            #[cfg(feature = "recmo_uint_verif")]
+            crate::verif_hooks::hit(67);
             self >>= 64 - BITS % 64;
         }
         self
@@ -174,6 +176,8 @@ impl<const BITS: usize, const LIMBS: usize> Uint<BITS, LIMBS> {
             .iter()
             .position(|&limb| limb != 0)
             .map_or(BITS, |n| {
+                #[cfg(feature = "recmo_uint_verif")]
+                crate::verif_hooks::hit(if n > 0 { 64 } else { 63 });
                 n * 64 + self.as_limbs()[n].trailing_zeros() as usize
             })
     }
@@ -187,6 +191,8 @@ impl<const BITS: usize, const LIMBS: usize> Uint<BITS, LIMBS> {
             .iter()
             .position(|&limb| limb != u64::MAX)
             .map_or(BITS, |n| {
+                #[cfg(feature = "recmo_uint_verif")]
+                crate::verif_hooks::hit(if n > 0 { 66 } else { 65 });
                 n * 64 + self.as_limbs()[n].trailing_ones() as usize
             })
     }
@@ -253,11 +259,15 @@ impl<const BITS: usize, const LIMBS: usize> Uint<BITS, LIMBS> {
             .rposition(|&limb| limb != 0)
             .unwrap_or(0);
         if first_set_limb == 0 {
+            #[cfg(feature = "recmo_uint_verif")]
+            crate::verif_hooks::hit(60);
             (self.as_limbs().first().copied().unwrap_or(0), 0)
         } else {
             let hi = self.as_limbs()[first_set_limb];
             let lo = self.as_limbs()[first_set_limb - 1];
             let leading_zeros = hi.leading_zeros();
+            #[cfg(feature = "recmo_uint_verif")]
+            crate::verif_hooks::hit(if leading_zeros > 0 { 61 } else { 62 });
             let bits = if leading_zeros > 0 {
                 (hi << leading_zeros) | (lo >> (64 - leading_zeros))
             } else {
@@ -312,6 +322,8 @@ impl<const BITS: usize, const LIMBS: usize> Uint<BITS, LIMBS> {
     pub fn overflowing_shl(self, rhs: usize) -> (Self, bool) {
         let (limbs, bits) = (rhs / 64, rhs % 64);
         if limbs >= LIMBS {
+            #[cfg(feature = "recmo_uint_verif")]
+            crate::verif_hooks::hit(50);
             return (Self::ZERO, self != Self::ZERO);
         }
 
@@ -326,10 +338,20 @@ impl<const BITS: usize, const LIMBS: usize> Uint<BITS, LIMBS> {
         // Non-zero bits are also lost in the limbs that are moved out whole and
         // in the part of the top limb that is removed by the mask.
         let mut overflow = carry != 0;
+        #[cfg(feature = "recmo_uint_verif")]
+        crate::verif_hooks::hit(if carry != 0 { 52 } else { 51 });
         for i in Self::LIMBS - limbs..Self::LIMBS {
             overflow |= self.limbs[i] != 0;
+            #[cfg(feature = "recmo_uint_verif")]
+            if self.limbs[i] != 0 {
+                crate::verif_hooks::hit(53);
+            }
         }
         overflow |= r.limbs[LIMBS - 1] > Self::MASK;
+        #[cfg(feature = "recmo_uint_verif")]
+        if r.limbs[LIMBS - 1] > Self::MASK {
+            crate::verif_hooks::hit(54);
+        }
         r.apply_mask();
         (r, overflow)
     }
@@ -383,6 +405,8 @@ impl<const BITS: usize, const LIMBS: usize> Uint<BITS, LIMBS> {
     pub fn overflowing_shr(self, rhs: usize) -> (Self, bool) {
         let (limbs, bits) = (rhs / 64, rhs % 64);
         if limbs >= LIMBS {
+            #[cfg(feature = "recmo_uint_verif")]
+            crate::verif_hooks::hit(55);
             return (Self::ZERO, self != Self::ZERO);
         }
 
@@ -396,8 +420,14 @@ impl<const BITS: usize, const LIMBS: usize> Uint<BITS, LIMBS> {
         }
         // Non-zero bits are also lost in the limbs that are moved out whole.
         let mut overflow = carry != 0;
+        #[cfg(feature = "recmo_uint_verif")]
+        crate::verif_hooks::hit(if carry != 0 { 57 } else { 56 });
         for i in 0..limbs {
             overflow |= self.limbs[i] != 0;
+            #[cfg(feature = "recmo_uint_verif")]
+            if self.limbs[i] != 0 {
+                crate::verif_hooks::hit(58);
+            }
         }
         (r, overflow)
     }
@@ -565,6 +595,8 @@ impl<const BITS: usize, const LIMBS: usize> Shl<Self> for Uint<BITS, LIMBS> {
         // the code produces incorrect output.
         // A shift amount of `2**64` or more moves every bit out.
         if rhs.as_limbs()[1..].iter().any(|&limb| limb != 0) {
+            #[cfg(feature = "recmo_uint_verif")]
+            crate::verif_hooks::hit(59);
             return Self::ZERO;
         }
         #[allow(clippy::cast_possible_truncation)]
@@ -595,6 +627,8 @@ impl<const BITS: usize, const LIMBS: usize> Shr<Self> for Uint<BITS, LIMBS> {
         // the code produces incorrect output.
         // A shift amount of `2**64` or more moves every bit out.
         if rhs.as_limbs()[1..].iter().any(|&limb| limb != 0) {
+            #[cfg(feature = "recmo_uint_verif")]
+            crate::verif_hooks::hit(59);
             return Self::ZERO;
         }
         #[allow(clippy::cast_possible_truncation)]
